@@ -230,7 +230,7 @@ func genC12(seed uint64, run int, tier string) Scenario {
 		sc.Dev.SlowEchoAt = r.IntN(len(sc.Ops) - 1)
 		sc.Dev.SlowEchoUS = sc.TimeoutOpsUS * int64(between(r, 30, 80)) / 100
 		sc.Class += "/slow-echo"
-		sc.CutEnum = false
+		slow = true
 	}
 	sc.CutEnum = pickCutEnum(run, 10) && !slow
 	if flavour == "dialogue" && r.IntN(5) == 0 {
